@@ -34,6 +34,7 @@ RULE = ('schedules of 2-3 threads, each running 1-4 public operations (BeartypeC
 
 
 HOOKED = []      # package names registered during the current schedule (checked again once all threads are done)
+SKIPPED = []     # package names put on a skip list during the current schedule (checked again likewise)
 
 
 class PoolMonitor:
@@ -133,6 +134,39 @@ class PoolMonitor:
                         (lambda *a, _p=pool, **kw: release(_p, *a, **kw))
                     setattr(mod, k, w)
                     self.rebound = getattr(self, 'rebound', 0) + 1
+
+
+class RegistryLockMonitor:
+    """Lockset monitor (Eraser-style, specialised): every mutation of a node of the import-hook registries (the trie of
+    hooked packages and the trie of skipped packages - dict subclasses defined by beartype) must happen while the
+    calling thread holds claw_lock, the lock the code itself documents for them.  Deterministic: needs no particular
+    interleaving, only that the mutating path runs."""
+
+    def __init__(self):
+        import beartype.claw._clawstate as cs
+        from beartype.claw._package import clawpkgtrie
+        self.lock = cs.claw_lock
+        self.ok = isinstance(self.lock, sched.ShimLock)
+        self.unlocked_writes = []
+        self.writes = 0
+        mon = self
+
+        def guard(cls, name):
+            orig = getattr(cls, name)
+
+            def method(self_, *a, **k):
+                mon.writes += 1
+                if mon.ok and not mon.lock.held_by_me():
+                    f = sys._getframe(1)
+                    mon.unlocked_writes.append((f'{os.path.basename(f.f_code.co_filename)}:{f.f_code.co_name}',
+                                                f'{cls.__name__}.{name}() at {os.path.basename(f.f_code.co_filename)}:{f.f_lineno} '
+                                                f'({f.f_code.co_name}) by thread {threading.get_ident()} without holding claw_lock'))
+                return orig(self_, *a, **k)
+            method.__name__ = name
+            return method
+        for cls in (clawpkgtrie.PackagesTrieBlacklist, clawpkgtrie.PackagesTrieWhitelist):
+            for name in ('__setitem__', '__delitem__', 'pop', 'popitem', 'setdefault', 'clear', 'update'):
+                setattr(cls, name, guard(cls, name))
 
 
 def make_ops(rng, tag):
@@ -243,15 +277,34 @@ def make_ops(rng, tag):
         # registrations race on creating the same intermediate registry nodes
         name = pkg_shared if shared else f'par{tag}.own{rng.randrange(10 ** 6)}'
 
+        # own registrations may carry a skip list: the skipped names of concurrent registrations share the fresh
+        # parent too, in the (separate) trie of skipped packages
+        with_skip = (not shared) and rng.random() < .6
+
         def f():
-            beartype_package(name, conf=BeartypeConf(is_random=False))
+            kw = dict(claw_skip_package_names=(name + '.legacy',)) if with_skip else {}
+            beartype_package(name, conf=BeartypeConf(is_random=False, **kw))
             HOOKED.append(name)
+            if with_skip:
+                SKIPPED.append(name + '.legacy')
             c = get_package_conf_or_none(name + '.sub.mod')
-            return c is not None and c.is_random is False
-        return ('hook:' + ('shared' if shared else 'own'), f, ('equals', True))
+            ok = c is not None and c.is_random is False
+            if with_skip:
+                ok = ok and get_package_conf_or_none(name + '.legacy.mod') is None
+            return ok
+        return ('hook:' + ('shared' if shared else 'own-with-skip' if with_skip else 'own'), f, ('equals', True))
 
     makers = [lambda: op_conf(True), lambda: op_conf(True), lambda: op_conf(False), op_typehint, op_typehint, op_bearable, op_bearable,
               op_die, op_subhint, op_decor, op_pep695, op_pep695, lambda: op_hook(True), lambda: op_hook(False)]
+    if rng.random() < .12:
+        # a registration storm: every thread only registers packages of its own (mostly with skip lists) below the
+        # one fresh parent - all of them race on the same registry nodes
+        programs = []
+        for t in range(nthreads):
+            ops = [op_hook(False) for _ in range(rng.choice((1, 2, 3)))]
+            catalog.extend(o[0] for o in ops)
+            programs.append(ops)
+        return programs, catalog
     # make the threads share some operations (same fresh hint / conf / package from several threads)
     shared_ops = [rng.choice(makers)() for _ in range(2)]
     programs = []
@@ -292,6 +345,13 @@ def judge(W, stream, idx, programs, res, wit):
         if get_package_conf_or_none(nm + '.sub.mod') is None:
             W.violation('lost-registration', f'package {nm!r} was registered by a thread (no exception) but is not registered once all threads are done',
                         stream, idx, wit)
+            return False
+    snames, SKIPPED[:] = list(SKIPPED), []
+    for nm in snames:
+        W.count('skip_registrations_rechecked')
+        if get_package_conf_or_none(nm + '.mod') is not None:
+            W.violation('lost-skip-registration', f'package {nm!r} was put on a skip list by a thread (no exception) but is type-checked '
+                                                  f'once all threads are done', stream, idx, wit)
             return False
     identity = {}
     for t, ops in enumerate(programs):
@@ -349,6 +409,9 @@ def main():
     pool_mon = PoolMonitor()
     nshims = sched.install_lock_shims()
     W.count('lock_shims_installed', nshims)
+    reg_mon = RegistryLockMonitor()
+    if not reg_mon.ok:
+        W.count('registry_lock_monitor_inactive(claw_lock is not a shim)')
 
     for idx in W.cases('sched', limit, frac=.85):
         rng = W.rng('sched', idx)
@@ -389,9 +452,15 @@ def main():
             pool_mon.stale_uses.clear()
             W.violation('pooled-object-used-by-non-holder:' + where, what, 'sched', idx, wit)
             continue
+        if reg_mon.unlocked_writes:
+            where, what = reg_mon.unlocked_writes[0]
+            reg_mon.unlocked_writes.clear()
+            W.violation('registry-written-without-its-lock:' + where, what, 'sched', idx, wit)
+            continue
         judge(W, 'sched', idx, programs, res, wit)
     W.count('pool_acquires_observed', pool_mon.acquires)
     W.count('pooled_container_accesses_checked_for_holder', pool_mon.guarded_accesses)
+    W.count('registry_writes_checked_for_lock', reg_mon.writes)
     W.count('shim_lock_acquisitions', sum(s_.acquisitions for s_ in sched.SHIMS.values()))
 
     # ---- free-running stress: the real OS scheduler ------------------------------------------------------
@@ -432,6 +501,7 @@ def main():
     W.need('pool_acquires_observed', 100)
     W.need('switches_at_pool_events', 50)
     W.need('pooled_container_accesses_checked_for_holder', 1000)
+    W.need('registry_writes_checked_for_lock', 200)
     W.need('stress_runs', 20)
     W.finish()
 
